@@ -252,7 +252,7 @@ func ruleIdentifierHelpers(c *core.Ctx) {
 }
 
 type reservedLookup struct {
-	key          ssa.Value      // the value looked up
+	key          ssa.Value       // the value looked up
 	reservedSucc *ssa.BasicBlock // successor of the test taken when the identifier is reserved
 	err          string
 }
